@@ -161,6 +161,23 @@ def impl_vs_impl(rng, n, residuals_only=False, terms_only=False):
                 fails.append({"detail": f"non-stationary normalisation term with {B} time(s) and {N} samples: {float(a['norm_loss'])} on the separable network, {float(b['norm_loss'])} on its pointwise twin", "case": dict(what="terms", cond="normalisation non-stationary", B=B, N=N)})
         except Exception as ex:
             fails.append({"detail": f"non-stationary normalisation term with {B} time(s) and {N} samples raised {type(ex).__name__}: {str(ex)[:160]}", "case": dict(what="terms", cond="normalisation non-stationary", B=B, N=N)})
+        # initial-condition term in 2 space dimensions, initial state not symmetric in (x, y): the separable branch evaluates
+        # it on the grid of the batch columns, the pointwise one on every (x_i, y_j) pair
+        s, r = spinn(rng, 3, 1, "nonstatio_PDE"); tw = make_twin(s, True)
+        Ps = Params(nn_params=s.init_params(), eq_params={}); Pt = Params(nn_params=tw.init_params(), eq_params={})
+        icf = lambda x: 1.0 + 2.0 * x[..., 0:1] - 3.0 * x[..., 1:2] + x[..., 0:1] * x[..., 1:2] ** 2
+        t0 = dy(rng, 0, 2); ts = jnp.array([[t0 + 0.375 * k] for k in range(B)])
+        xy = jnp.array([[dy(rng) + 0.125 * k, dy(rng) - 0.25 * k] for k in range(B)])
+        common = dict(dynamic_loss=None, initial_condition_fun=icf)
+        Ls = jinns.loss.LossPDENonStatio(u=s, params=Ps, **common); Lt = jinns.loss.LossPDENonStatio(u=tw, params=Pt, **common)
+        pairs = jnp.array([[float(ts[0, 0]), float(a), float(b)] for a in np.asarray(xy)[:, 0] for b in np.asarray(xy)[:, 1]])
+        try:
+            _, a = Ls.evaluate(Ps, PDENonStatioBatch(times_x_inside_batch=jnp.concatenate([ts, xy], axis=1), times_x_border_batch=None))
+            _, b = Lt.evaluate(Pt, PDENonStatioBatch(times_x_inside_batch=pairs, times_x_border_batch=None))
+            if not close(a["initial_condition"], b["initial_condition"]):
+                fails.append({"detail": f"initial-condition term in 2 space dimensions ({B} point(s) per axis): {float(a['initial_condition'])} on the separable network, {float(b['initial_condition'])} on its pointwise twin", "case": dict(what="terms", cond="initial condition 2-D", B=B)})
+        except Exception as ex:
+            fails.append({"detail": f"initial-condition term in 2 space dimensions ({B} point(s) per axis) raised {type(ex).__name__}: {str(ex)[:160]}", "case": dict(what="terms", cond="initial condition 2-D", B=B)})
     return fails
 
 
